@@ -34,7 +34,7 @@ def run(pid, rep, key=None):
         # std HashMap iteration order is random per process: allocation-dependent witnesses may need several runs
         for attempt in range(int(rep.get('retries', 1))):
             rc, out = cargo_test('verif_replay', {'VERIF_REPLAY_FILE': path})
-            lines = [l for l in out.splitlines() if l.startswith('VERIF-REPLAY:')]
+            lines = [l[l.index('VERIF-REPLAY:'):] for l in out.splitlines() if 'VERIF-REPLAY:' in l]
             outs = lines
             if any('done' in l for l in lines) or any('violated' in l for l in lines): ran = True
             else:
@@ -46,8 +46,13 @@ def run(pid, rep, key=None):
         if not ran: return None
         return hit
     if kind == 'rust-test':
-        rc, out = cargo_test(rep['filter'], rep.get('env', {}))
-        lines = [l for l in out.splitlines() if l.startswith('VERIF-REPLAY:')]
+        env = dict(rep.get('env', {}))
+        if 'spec' in rep:
+            d = os.path.join(overlay.W, 'replay-in'); os.makedirs(d, exist_ok=True)
+            fd, path = tempfile.mkstemp(suffix='.json', dir=d); os.close(fd)
+            json.dump(rep['spec'], open(path, 'w')); env['VERIF_REPLAY_FILE'] = path
+        rc, out = cargo_test(rep['filter'], env)
+        lines = [l[l.index('VERIF-REPLAY:'):] for l in out.splitlines() if 'VERIF-REPLAY:' in l]
         rep['native_output'] = lines[-12:]
         if not lines:
             print('[replay] native replay did not run:\n' + out[-2500:], file=sys.stderr)
